@@ -82,4 +82,23 @@ func QueueElement.Cancel
   modifies timedQueueElement.timedQueue.heap, allelems(int), generalheap.HeapElement.index, chans
   ensures closed(timedQueueElement.cancel) && unlocked(timedQueueElement.timedQueue.heapMutex)
   ensures forall c Int :: old(closed(c)) ==> closed(c)
+
+-- Poll: whenever it waits for the polled element's timer (both selects have a case on timer.C), that timer has not been
+-- stopped and drained - otherwise a path on which only the timer can end the wait (shutdown without the cancel / ignore
+-- flags: the element is still delivered when it is due) blocks forever.
+-- (assumed: what container/heap hands back is a heap element of this queue; the heap, the condition variable and the
+-- three-way selects are abstracted: which case fires is not decided; opt only-ghost-asserts: of this function only the
+-- ghost assertion is checked - memory safety and lock discipline of Poll are not decided)
+func Queue.Poll
+  instantiate T: int
+  opt assume-type-asserts
+  opt only-ghost-asserts
+  requires t != nil && t.waitCond != nil && t.ctx != nil && unlocked(t.heapMutex) && unlocked(t.shutdownMutex)
+  modifies everything
+  ghost local timerlive Bool        -- the timer of the polled element is running or has fired undrained (ghost)
+  ghost after call NewTimer: timerlive = true
+  ghost after call CleanupTimer: timerlive = false
+  ghost before select: assert timerlive
+  loop 1 invariant t != nil
+  loop 2 invariant t != nil
 @*/
